@@ -107,6 +107,10 @@ impl EAppend {
                     event_name: event_name.to_string(),
                     ..Default::default()
                 };
+                // The default values (`any`, empty payload/metadata) can also be given explicitly,
+                // so they cannot tell whether the option was already seen.
+                let (mut seen_expected_version, mut seen_payload, mut seen_metadata) =
+                    (false, false, false);
 
                 for arg in args {
                     match arg {
@@ -129,12 +133,13 @@ impl EAppend {
                             cmd.partition_key = Some(partition_key);
                         }
                         OptionalArg::ExpectedVersion(expected_version) => {
-                            if !matches!(cmd.expected_version, ExpectedVersion::Any) {
+                            if seen_expected_version {
                                 return Err(easy::Error::message_format(
                                     "expected version already specified",
                                 ));
                             }
 
+                            seen_expected_version = true;
                             cmd.expected_version = expected_version;
                         }
                         OptionalArg::Timestamp(timestamp) => {
@@ -147,21 +152,23 @@ impl EAppend {
                             cmd.timestamp = Some(timestamp);
                         }
                         OptionalArg::Payload(payload) => {
-                            if !cmd.payload.is_empty() {
+                            if seen_payload {
                                 return Err(easy::Error::message_format(
                                     "payload already specified",
                                 ));
                             }
 
+                            seen_payload = true;
                             cmd.payload = payload.to_vec();
                         }
                         OptionalArg::Metadata(metadata) => {
-                            if !cmd.metadata.is_empty() {
+                            if seen_metadata {
                                 return Err(easy::Error::message_format(
                                     "metadata already specified",
                                 ));
                             }
 
+                            seen_metadata = true;
                             cmd.metadata = metadata.to_vec();
                         }
                     }
